@@ -29,6 +29,11 @@ def to_smt2(ob, order=0):
         seq = [goal] + facts[::-1]
     for a in seq:
         s.add(a)
+    # observables: obs!k == term, so that the model names the pre-state values the replay needs
+    if ob.kind != "canary":
+        for k, (path, sname, terms) in enumerate(ob.extra.get("observables", [])):
+            t = terms[0]
+            s.add(z3.Const("obs!%d" % k, t.sort()) == t)
     return s.to_smt2()
 
 
@@ -81,34 +86,45 @@ def cli_fallback(smt, timeout_s):
 
 
 def discharge(obls, timeout_ms=20000, jobs=None, fallback=True):
+    """stage 1: short budget, definitions-last order; stage 2: the other two assertion orders (solver heuristics are
+    order sensitive); stage 3: full budget; stage 4: cvc5 / z3-4.8 on the SMT-LIB text"""
     jobs = jobs or int(os.environ.get("PYVC_JOBS", min(16, os.cpu_count() or 4)))
-    work = []
-    for i, ob in enumerate(obls):
-        work.append(("%d" % i, to_smt2(ob), min(timeout_ms, 3000) if ob.kind == "canary" else timeout_ms, ob.kind != "canary"))
-    if not work:
+    if not obls:
         return []
+    short = min(timeout_ms, 4000)
     ctx = mp.get_context("fork")
-    with ctx.Pool(jobs) as pool:
-        results = pool.map(_work, work, chunksize=1)
-    # second chance for what stayed unknown: other assertion orders (solver heuristics are order sensitive)
-    retry = [(i, ob) for i, (ob, r) in enumerate(zip(obls, results)) if r["verdict"] in ("unknown", "error") and ob.kind != "canary"]
-    if retry:
-        jobs2 = []
-        for i, ob in retry:
-            for order in (1, 2):
-                jobs2.append(("%d/%d" % (i, order), to_smt2(ob, order), timeout_ms, True))
+
+    def run(jobs_list):
         with ctx.Pool(jobs) as pool:
-            res2 = pool.map(_work, jobs2, chunksize=1)
-        for (i, ob), k in zip(retry, range(0, len(res2), 2)):
-            for r2 in res2[k : k + 2]:
-                if r2["verdict"] in ("sat", "unsat"):
-                    r2["solver"] += " (reordered)"
-                    results[i] = r2
+            return pool.map(_work, jobs_list, chunksize=1)
+
+    def tmo(ob, t):
+        return min(t, 3000) if ob.kind == "canary" else t
+
+    results = run([("%d" % i, to_smt2(ob, 0), tmo(ob, short), ob.kind != "canary") for i, ob in enumerate(obls)])
+    open_ = [i for i, (ob, r) in enumerate(zip(obls, results)) if r["verdict"] in ("unknown", "error") and ob.kind != "canary"]
+    if open_:
+        j2 = []
+        for i in open_:
+            for order in (1, 2):
+                j2.append(("%d/%d" % (i, order), to_smt2(obls[i], order), short, True))
+        r2 = run(j2)
+        for n, i in enumerate(open_):
+            for x in r2[2 * n : 2 * n + 2]:
+                if x["verdict"] in ("sat", "unsat"):
+                    x["solver"] += " (reordered)"
+                    results[i] = x
                     break
+    open_ = [i for i in open_ if results[i]["verdict"] in ("unknown", "error")]
+    if open_ and timeout_ms > short:
+        r3 = run([("%d" % i, to_smt2(obls[i], 0), timeout_ms, True) for i in open_])
+        for i, x in zip(open_, r3):
+            if x["verdict"] in ("sat", "unsat"):
+                results[i] = x
     out = []
-    for ob, job, r in zip(obls, work, results):
+    for ob, r in zip(obls, results):
         if r["verdict"] in ("unknown", "error") and fallback and ob.kind != "canary":
-            v, nm = cli_fallback(job[1], timeout_ms / 1000.0)
+            v, nm = cli_fallback(to_smt2(ob, 0), min(timeout_ms / 1000.0, 20))
             if v in ("sat", "unsat"):
                 r = dict(r, verdict=v, solver=nm)
         r["obligation"] = ob
